@@ -90,6 +90,13 @@ func runRng(c *RngCase) (res interface{}, herr error) {
 		seed[i] = byte(37*i + c.K + 1)
 	}
 	rd := &faultReader{data: seed, k: c.K, chunk: c.Chunk, fault: c.Fault}
+	var src io.Reader = rd
+	if c.Fault == "typed_nil" && c.K == 0 {
+		// a source that is a nil POINTER inside a non-nil interface (a *os.File left nil by a failed Open): its Read returns an
+		// error after 0 bytes; it is a failing source like any other, not "no source given"
+		var f *os.File
+		src = f
+	}
 	rootPub, rootPriv := fixedKey("root")
 	var tok *biscuit.Biscuit
 	var err error
@@ -101,12 +108,12 @@ func runRng(c *RngCase) (res interface{}, herr error) {
 	}()
 	switch c.Op {
 	case "build":
-		b := biscuit.NewBuilder(rootPriv, biscuit.WithRNG(rd))
+		b := biscuit.NewBuilder(rootPriv, biscuit.WithRNG(src))
 		b.AddAuthorityFact(contentFact(1))
 		tok, err = b.Build()
 	case "new":
 		// biscuit.New(rng, root, baseSymbols, authority): authority block obtained from a throw-away builder
-		b := biscuit.NewBuilder(rootPriv, biscuit.WithRNG(rd))
+		b := biscuit.NewBuilder(rootPriv, biscuit.WithRNG(src))
 		b.AddAuthorityFact(contentFact(2))
 		tok, err = b.Build()
 	case "append", "append_after_reload":
@@ -125,7 +132,7 @@ func runRng(c *RngCase) (res interface{}, herr error) {
 		}
 		bb := base.CreateBlock()
 		bb.AddFact(contentFact(2))
-		tok, err = base.Append(rd, bb.Build())
+		tok, err = base.Append(src, bb.Build())
 	}
 	out := map[string]interface{}{"reads": rd.reads}
 	switch {
